@@ -219,3 +219,115 @@ contract(KS + "_clustering", params={"self": "obj:KNNSupervisedOPF", "force_prot
                 LoopSpec("for", var="i", inv=knn_init_inv),
                 LoopSpec("while", inv=lambda v, old, le_: forest_inv(v, old)),
                 LoopSpec("for", var="q", inv=lambda v, old, le_: forest_inner(v, old))])
+
+
+# ------------------------------------------------------------------ UnsupervisedOPF._clustering
+
+def adj_long(sg, k):
+    """every neighbour list is at least n_plateaus + k long (so the index ranges of the code are in bounds)"""
+    n = length(sg.nodes)
+    return forall(0, n, lambda x: conj(ge(sg.nodes[x].n_plateaus, 0),
+                                       ge(length(sg.nodes[x].adjacency), sg.nodes[x].n_plateaus + k)))
+
+
+def un_static(v, old):
+    sg = v.self.subgraph
+    n = length(sg.nodes)
+    return cl_static(v, old, True) + [
+        ("k", conj(ge(v.n_neighbours, 1))),
+        ("adj_long", adj_long(sg, v.n_neighbours)),
+        ("cluster_nonneg", forall(0, n, lambda x: ge(sg.nodes[x].cluster_label, 0))),
+    ]
+
+
+def un_sym_inv(v, old, le_):
+    return un_static(v, old) + [("cost_same", density_ready(v.self.subgraph)),
+                                ("ord_empty", eq(length(v.self.subgraph.idx_nodes), 0))]
+
+
+def un_init_inv(v, old, le_):
+    sg, h = v.self.subgraph, v.h
+    n = length(sg.nodes)
+    N = sg.nodes
+    i = v.i
+    return un_static(v, old) + [
+        ("heap", conj(HP.inv(h), eq(h.size, n), eq(h.policy, "max"), eq(h.last, i - 1))),
+        ("done", forall(0, i, lambda x: conj(eq(h.color[x], GRAY), eq(h.cost[x], N[x].density - 1),
+                                             eq(N[x].pred, NIL), eq(N[x].root, x)))),
+        ("todo", forall(i, n, lambda x: eq(h.color[x], WHITE))),
+        ("cost_same", density_ready(sg)),
+        ("ord_empty", eq(length(sg.idx_nodes), 0)),
+    ]
+
+
+def un_forest(v, old, le_):
+    return forest_inv(v, old, True) + [
+        ("k", ge(v.n_neighbours, 1)),
+        ("adj_long", adj_long(v.self.subgraph, v.n_neighbours)),
+    ]
+
+
+def un_inner(v, old, le_):
+    sg = v.self.subgraph
+    return forest_inner(v, old, True) + [
+        ("k", ge(v.n_neighbours, 1)),
+        ("adj_long", adj_long(sg, v.n_neighbours)),
+        ("n_adjacents", eq(v.n_adjacents, sg.nodes[v.p].n_plateaus + v.n_neighbours)),
+    ]
+
+
+def clusters_post(v, old):
+    sg = v.self.subgraph
+    n = length(sg.nodes)
+    N = sg.nodes
+    nc = sg.n_clusters
+    if MODE.kind == "sym":
+        ro = v.ghost("g_rootof", "list[int]")
+        onto = forall(0, nc, lambda j: conj(le(0, ro[j]), lt(ro[j], n), eq(N[ro[j]].pred, NIL),
+                                            eq(N[ro[j]].cluster_label, j)))
+    else:
+        onto = forall(0, nc, lambda j: exists(0, n, lambda r: conj(eq(N[r].pred, NIL), eq(N[r].cluster_label, j))))
+    return [
+        ("cluster_ids_in_range", forall(0, n, lambda r: implies(eq(N[r].pred, NIL),
+                                                                conj(le(0, N[r].cluster_label), lt(N[r].cluster_label, nc))))),
+        ("cluster_ids_distinct", forall(0, n, lambda r, s: implies(conj(eq(N[r].pred, NIL), eq(N[s].pred, NIL), ne(r, s)),
+                                                                   ne(N[r].cluster_label, N[s].cluster_label)))),
+        ("cluster_ids_onto", onto),
+    ]
+
+
+contract(US + "_clustering", params={"self": "obj:UnsupervisedOPF", "n_neighbours": "int"},
+         props=["C13"], split=True,
+         requires=lambda v: cl_requires(v) + [
+             ("k", ge(v.n_neighbours, 1)),
+             ("adj_long", adj_long(v.self.subgraph, v.n_neighbours)),
+             ("cluster_nonneg", forall(0, length(v.self.subgraph.nodes),
+                                       lambda x: ge(v.self.subgraph.nodes[x].cluster_label, 0)))],
+         ensures=lambda v, old, result: forest_post(v, old, True) + clusters_post(v, old),
+         modifies=["self.subgraph.nodes.adjacency", "self.subgraph.nodes.n_plateaus", "self.subgraph.nodes.pred",
+                   "self.subgraph.nodes.root", "self.subgraph.nodes.cost", "self.subgraph.nodes.cluster_label",
+                   "self.subgraph.idx_nodes", "self.subgraph.n_clusters"],
+         ghost=GHOST_CL + [
+             ("after:h = Heap(size=self.subgraph.n_nodes, policy='max')",
+              "g_rootof = [0 for _ in range(self.subgraph.n_nodes)]"),
+             ("after:self.subgraph.nodes[q].pred = p", "g_at[q] = k"),
+             ("after:self.subgraph.nodes[p].cluster_label = l", "g_rootof[l] = p")],
+         hints=[("after:loop4", lambda v, old: [
+             ("all_black", forall(0, length(v.self.subgraph.nodes), lambda x: eq(v.h.color[x], BLACK)))])],
+         lemmas=[("before:h.cost[i] = self.subgraph.nodes[i].cost", "cost_write", lambda v: {"h": v.h, "x": v.i}),
+                 ("before:h.cost[p] = self.subgraph.nodes[p].density", "cost_write", lambda v: {"h": v.h, "x": v.p}),
+                 ("after:loop4", "inj_card", lambda v: {"f": v.self.subgraph.idx_nodes, "g": v.g_rank,
+                                                       "a": length(v.self.subgraph.idx_nodes),
+                                                       "b": length(v.self.subgraph.nodes)}),
+                 ("after:loop4", "inj_card", lambda v: {"f": v.g_rank, "g": v.self.subgraph.idx_nodes,
+                                                       "a": length(v.self.subgraph.nodes),
+                                                       "b": length(v.self.subgraph.idx_nodes)})],
+         loops=[LoopSpec("for", var="i", inv=un_sym_inv),
+                LoopSpec("for", var="k", inv=lambda v, old, le_: un_sym_inv(v, old, le_) + [
+                    ("i", conj(le(0, v.i), lt(v.i, length(v.self.subgraph.nodes))))]),
+                LoopSpec("for", var="l", inv=lambda v, old, le_: un_sym_inv(v, old, le_) + [
+                    ("i", conj(le(0, v.i), lt(v.i, length(v.self.subgraph.nodes)))),
+                    ("j", conj(le(0, v.j), lt(v.j, length(v.self.subgraph.nodes))))]),
+                LoopSpec("for", var="i", inv=un_init_inv),
+                LoopSpec("while", inv=un_forest),
+                LoopSpec("for", var="k", inv=un_inner)])
